@@ -144,7 +144,7 @@ Theorem C11_order_valid : forall (s0 : state) (o : rebase_opts) (rank : nat -> n
   (forall x y, In x T -> In y (oc_deps (s_g s0) (s_pm s0) T [] x) -> rank y < rank x) ->
   order_commits_for_rebase (s_g s0) (s_pm s0) T = Ok order ->
   valid_from s0 o [] order /\ forall x, In x T -> In x order.
-Proof. intros s0 o rank order T. apply order_commits_valid. Qed.
+Proof. intros s0 o rank order T Hr H. exact (order_commits_valid s0 o rank Hr order H). Qed.
 
 (** HEADLINE for the model of rebase_descendants itself (the implementation's ordering): no
     hypothesis on the order is left, only the acyclicity of the dependency relation. *)
